@@ -510,14 +510,22 @@ func (c *Check) nodeletIDs() {
 	for _, b := range f.Blocks {
 		for _, ins := range b.Instrs {
 			call, ok := ins.(*ssa.Call)
-			if !ok || call.Call.StaticCallee() == nil || call.Call.StaticCallee().String() != "fmt.Sprintf" {
+			if !ok || call.Call.StaticCallee() == nil {
 				continue
 			}
-			format, ok := constString(call.Call.Args[0])
+			fi := 0
+			switch call.Call.StaticCallee().String() {
+			case "fmt.Sprintf":
+			case "fmt.Fprintf":
+				fi = 1
+			default:
+				continue
+			}
+			format, ok := constString(call.Call.Args[fi])
 			if !ok || nestingDepth(b) == 0 {
 				continue
 			}
-			args := variadicValues(call.Call.Args[1])
+			args := variadicValues(call.Call.Args[fi+1])
 			// map verbs to argument positions
 			verbPos := []int{}
 			for i := 0; i < len(format); i++ {
@@ -542,6 +550,12 @@ func (c *Check) nodeletIDs() {
 				}
 				if ia >= 0 && ib >= 0 && ib < len(args) {
 					pairs = append(pairs, pair{args[ia], args[ib]})
+					if loc[0] == 0 && loc[1] == len(format) && fi == 0 {
+						// the identifier built once and used by name: every further use counts
+						for n := valueUses(call); n > 1; n-- {
+							pairs = append(pairs, pair{args[ia], args[ib]})
+						}
+					}
 					if first == token.NoPos {
 						first = call.Pos()
 					}
@@ -1174,4 +1188,22 @@ func (c *Check) dotEdgesDeclared() {
 	} else {
 		c.bad("C18-R1", "edges-declared", p.relFile(addEdge.Pos()), "ComposeDot looks up the id of an edge's destination without testing that the destination is one of the graph's nodes: a node dropped from the graph (its values cancel in a diff, or drop_negative) is still the destination of edges of kept nodes, and those edges are written as `Nk -> N0`, a node that is never declared")
 	}
+}
+
+// valueUses: how many operands the value v is (conversions to interface counted by their own uses).
+func valueUses(v ssa.Value) int {
+	n := 0
+	if v.Referrers() == nil {
+		return 0
+	}
+	for _, r := range *v.Referrers() {
+		switch x := r.(type) {
+		case *ssa.DebugRef:
+		case *ssa.MakeInterface:
+			n += valueUses(x)
+		default:
+			n++
+		}
+	}
+	return n
 }
